@@ -92,9 +92,29 @@ def layer_spec(layer, N, S, M=2):
         fields = [("float", ('m', q)) for q in range(M)]
         cfg = "B::configuration_t{%s}" % ", ".join("a%d" % q for q in range(M))
         read = ["out[%d] = static_cast<double>(c[%d]);" % (q, q) for q in range(M)]
+    elif layer == "array":
+        P = None
+        B = "array<verif::vd<float, %d>>" % M
+        fields = [("std::size_t", ('n', 0))]
+        cfg = "B::configuration_t{a0}"
+        read = ["out[0] = static_cast<double>(c[0]);"]
     else:
         raise ValueError(layer)
     return P, B, fields, cfg, read
+
+
+def h_array_route(route, M=2):
+    """the storage layer's configuration (its element count) along copy / assignment / move: assignment targets an
+    already constructed array of ANOTHER size (a1), so a member that only some branches update shows"""
+    P, B, fields, cfg, read = layer_spec("array", 1, "size_t", M)
+    args = fields + [("std::size_t", ('other', 0))]
+    body = "  using B = %s;\n  B::owning_data_t o1(%s);\n" % (B, cfg)
+    body += {"copy": "  B::owning_data_t o(o1);\n", "move": "  B::owning_data_t o(std::move(o1));\n",
+             "assign": "  B::owning_data_t o(B::configuration_t{a1}); o = o1;\n",
+             "move-assign": "  B::owning_data_t o(B::configuration_t{a1}); o = std::move(o1);\n"}[route]
+    body += "  const B::owning_data_t & co = o;\n  auto c = co.get_configuration();\n  " + "\n  ".join(read) + "\n"
+    return Harness("cfg_array_%s" % route.replace("-", "_"), args, body, out=("double", 1),
+                   meta={"kind": "layer", "layer": "array", "N": 1, "S": "size_t", "how": route, "nf": 1, "probe": False, "alloc": True})
 
 
 def h_layer(layer, N, S, how, M=2):
@@ -149,6 +169,8 @@ def harnesses(tier):
             hs.append(h_layer("affine", N, "float" if N % 2 else "double", how))
             hs.append(h_layer("constant", N, "float", how))
         hs.append(h_layer("hilbert", 2, "size_t", how))
+        hs.append(h_layer("array", 1, "size_t", how))
+    hs += [h_array_route(r) for r in ("copy", "move", "assign", "move-assign")]
     return hs
 
 
@@ -167,7 +189,8 @@ def run(rep, tier):
         s = ir.Sym(h.func)
         if s.unknown:
             raise AnalysisBroken("C17 %s: unmodelled instruction %s at %s" % (inst, s.unknown[0]["op"], ir.where(s.unknown[0])))
-        if any(not (c.name or "").startswith(("_ZN6covfie7utility10round_pow2", "_ZN6covfie7utility4ipow")) for c in s.calls):
+        ALLOC = ("_Znam", "_Znwm", "_ZdaPv", "_ZdlPv", "memset", "memcpy", "memmove", "llvm.mem", "__cxa_throw_bad_array_new_length", "_ZSt28__throw_bad_array_new_lengthv", "llvm.umul.with.overflow")
+        if any(not (c.name or "").startswith(("_ZN6covfie7utility10round_pow2", "_ZN6covfie7utility4ipow") + (ALLOC if h.meta.get("layer") == "array" else ())) for c in s.calls):
             raise AnalysisBroken("C17 %s: unexpected call %s in a configuration harness" % (inst, s.calls[0].dname))
         if kind == "pack":
             outs = s.outputs(h.out_index)
@@ -198,7 +221,7 @@ def run(rep, tier):
             nf = h.meta["nf"]
             outs = s.outputs(h.out_index)
             good = True
-            file = T_DIR + h.meta["layer"] + ".hpp" if h.meta["layer"] != "constant" else "lib/core/covfie/core/backend/primitive/constant.hpp"
+            file = T_DIR + h.meta["layer"] + ".hpp" if h.meta["layer"] not in ("constant", "array") else "lib/core/covfie/core/backend/primitive/%s.hpp" % h.meta["layer"]
             for i in range(nf):
                 got = outs.get(8 * i)
                 exp = ('arg', i)
